@@ -223,6 +223,7 @@ func (c *ctx) CompareTwoPartyWithModel(s *Sim, n *Node, sh tpShape, opts ...bool
 func (s *Sim) tpCall(n *Node, f func()) (msgs []*protocol.Message, pan string, hung bool) {
 	done := make(chan string, 1)
 	go func() {
+		defer muxEnter(s.det)() // sims that run in parallel (muxReader): the call draws from this sim's deterministic reader
 		defer func() {
 			if r := recover(); r != nil {
 				done <- "PANIC: " + fmt.Sprint(r)
